@@ -31,6 +31,19 @@ HASHES = ["sha256", "sha384", "sha512"]
 
 
 # ------------------------------------------------------------------------------------------------ helpers
+def _norm_fmt(fmt):
+    """byte order + one (code, count) per field with L/l written I/i (same size and signedness in standard-size modes)"""
+    import re
+    fmt = "".join(fmt.split())
+    order, body = (fmt[0], fmt[1:]) if fmt[:1] in "@=<>!" else ("@", fmt)
+    out = []
+    for cnt, code in re.findall(r"(\d*)([xcbB?hHiIlLqQnNefdspP])", body):
+        n = int(cnt) if cnt else 1
+        code = {"L": "I", "l": "i"}.get(code, code) if order in "<>=!" else code
+        out.extend([(code, n)] if code in "sp" else [(code, 1)] * n)
+    return order, out
+
+
 def keydir():
     from vcore import REPO
     return str(REPO / "tests" / "_data" / "keys")
@@ -98,7 +111,8 @@ def crosscheck_generated(ck):
         cls = classes.get(cname)
         if cls is None:
             raise Infra(f"class {cname} not importable")
-        if cls.format() != lay["fmt"] or struct.calcsize(cls.format()) != lay["size"]:
+        # compared by VALUE (field codes and sizes), not by spelling: '<4I' == '<IIII' == '<LLLL'
+        if _norm_fmt(cls.format()) != _norm_fmt(lay["fmt"]) or struct.calcsize(cls.format()) != lay["size"]:
             raise Infra(f"generated format of {cname} {lay['fmt']!r} != live {cls.format()!r}")
     c = meta["consts"]
     A, A2, I, I2 = classes["AHABContainer"], classes["AHABContainerV2"], classes["ImageArrayEntry"], classes["ImageArrayEntryV2"]
